@@ -25,6 +25,8 @@ type ShutdownParams struct {
 	Health     bool   `json:"health"`
 	Membership string `json:"membership"`
 	MaxPoint   int    `json:"max_point"`
+	// OldServer: a server below 5.5.0 (streams are closed one at a time, the end is synthesised by the client)
+	OldServer bool `json:"old_server"`
 }
 
 func init() {
@@ -66,6 +68,10 @@ func init() {
 			add(ShutdownParams{Case: "rebalance", Checkpoint: "auto", Membership: "static"}, 4)
 			add(ShutdownParams{Case: "rebalance", Checkpoint: "auto", Mitigation: true, Membership: "dynamic"}, 4)
 			add(ShutdownParams{Case: "absorbed", Checkpoint: "auto", Membership: "static", MaxPoint: 2}, 1)
+			add(ShutdownParams{Case: "closefault", Checkpoint: "auto", Membership: "static", MaxPoint: 4}, 1)
+			add(ShutdownParams{Case: "closefault", Checkpoint: "auto", Membership: "static", MaxPoint: 4, OldServer: true}, 1)
+			add(ShutdownParams{Case: "idle", Checkpoint: "auto", Membership: "static", MaxPoint: 1, OldServer: true}, 1)
+			add(ShutdownParams{Case: "deliver", Checkpoint: "auto", Membership: "static", MaxPoint: 60, OldServer: true}, 4)
 			add(ShutdownParams{Case: "pingfail", Checkpoint: "auto", Health: true, Membership: "static", MaxPoint: 40}, 4)
 			add(ShutdownParams{Case: "rebalance2", Checkpoint: "auto", Membership: "static", MaxPoint: 3}, 1)
 			add(ShutdownParams{Case: "notifyduringclose", Checkpoint: "auto", Membership: "dynamic", MaxPoint: 120}, 4)
@@ -185,6 +191,9 @@ func shutdownClassify(r *vrt.Result) []string {
 func shutdownMain(p ShutdownParams) {
 	resetGlobals()
 	o := DcpOpts{HealthCheck: p.Health}
+	if p.OldServer {
+		o.ServerVersion = "5.0.1-5003-enterprise"
+	}
 	o.Vbs = 2
 	o.Replicas = 0
 	o.CheckpointType = p.Checkpoint
@@ -343,6 +352,21 @@ func shutdownMain(p ShutdownParams) {
 			dcpStream(e).Rebalance()
 		})
 		vrt.Sleep(o.RebalanceDelay / 2)
+	case "closefault":
+		// one close-stream request of the shutdown is rejected / never answered
+		how := k % 2
+		armed := true
+		c.Fault = func(r *gocbcore.SimRequest) gocbcore.SimAnswer {
+			if armed && r.Kind == "closestream" && r.Vb == uint16(k/2%2) {
+				armed = false
+				if how == 0 {
+					return gocbcore.SimAnswer{Kind: "err", Err: gocbcore.ErrTemporaryFailure}
+				}
+				return gocbcore.SimAnswer{Kind: "drop"}
+			}
+			return gocbcore.SimAnswer{}
+		}
+		doClose()
 	case "absorbed":
 		// the only unsaved progress is an event the library settles itself (seqno-advanced / a collection
 		// system event): the closing save stores it
